@@ -48,20 +48,27 @@ static std::vector<int> round_tids(int mode, const hc::Cfg& cfg, const std::vect
     return out;
 }
 
-// invariants on the master's public state, evaluated at every master step of the hand-written loops
-static void master_invariants(MPIMaster& m, const char* where) {
+// invariants on the master's public state, evaluated at every master step of the hand-written loops.
+// Only necessary conditions that any correct implementation satisfies are checked - not the bookkeeping of this particular
+// implementation (a first version also demanded |DispatchMap|+|JobStack| == Ntasks, "no active completion receive for an
+// idle worker" and "no Finish while jobs are left"; a behaviour-preserving change that fills the map when the report
+// arrives, or releases surplus workers early, tripped them: false alarms, removed).
+// The probe adapts to the master's internals: it is a template selected by SFINAE on the members it reads, so a refactoring
+// that changes their container types still compiles, and one that renames or removes them merely switches the probe off
+// (the history checks after the run do not depend on it).
+template <class M>
+static auto master_invariants_impl(M& m, const char* where, int)
+    -> decltype(m.JobStack.size(), m.WorkerStack.top(), m.WorkerStack.pop(), m.DispatchMap.size(), m.Ntasks, m.Nprocs, void()) {
     std::ostringstream os;
-    // Only necessary conditions that any correct implementation satisfies are checked here - not the bookkeeping of this
-    // particular implementation (a first version also demanded |DispatchMap|+|JobStack| == Ntasks, "no active completion
-    // receive for an idle worker" and "no Finish while jobs are left"; a behaviour-preserving change that fills the map when
-    // the report arrives, or releases surplus workers early, tripped them: false alarms, removed).
-    size_t handed_out = m.Ntasks >= m.JobStack.size() ? m.Ntasks - m.JobStack.size() : 0;
+    size_t handed_out = (size_t)m.Ntasks >= m.JobStack.size() ? (size_t)m.Ntasks - m.JobStack.size() : 0;
     if (m.DispatchMap.size() > handed_out) os << where << ": DispatchMap has " << m.DispatchMap.size() << " entries but only " << handed_out << " jobs were handed out; ";
-    std::stack<WorkerId> ws = m.WorkerStack; std::set<WorkerId> seen;
-    while (!ws.empty()) { if (!seen.insert(ws.top()).second) os << where << ": worker " << ws.top() << " twice in WorkerStack; "; ws.pop(); }
-    if (m.WorkerStack.size() > m.Nprocs) os << where << ": WorkerStack larger than the pool; ";
+    auto ws = m.WorkerStack; std::set<long> seen;
+    while (!ws.empty()) { if (!seen.insert((long)ws.top()).second) os << where << ": worker " << ws.top() << " twice in WorkerStack; "; ws.pop(); }
+    if (m.WorkerStack.size() > (size_t)m.Nprocs) os << where << ": WorkerStack larger than the pool; ";
     if (!os.str().empty() && g_rec->inv.size() < 10) g_rec->inv.push_back(os.str());
 }
+template <class M> static void master_invariants_impl(M&, const char*, long) {}   // internals look different: no probe
+static void master_invariants(MPIMaster& m, const char* where) { master_invariants_impl(m, where, 0); }
 
 static void job_body(int group, int round, int id, const mpi::communicator& comm) {
     RecWrap w; w.group = group; w.round = round; w.id = id; w.comm = &comm; w.run();
